@@ -17,7 +17,10 @@ FN = 'propka.input.get_atom_lines_from_pdb'
 NAMES = [' N  ', ' OXT', " O''", ' CA ', ' H  ', 'N   ', ' OG ', '1HB ']
 # 'TER:...' : TER records that are not padded to six columns (bare 'TER', with LF / CR LF / nothing after it, or two blanks)
 TER_SHORT = {'TER:lf': 'TER\n', 'TER:crlf': 'TER\r\n', 'TER:end': 'TER', 'TER:blanks': 'TER  \n'}
-TAGS = ['ATOM  ', 'HETATM', 'MODEL ', 'TER   ', 'OTHER'] + sorted(TER_SHORT)
+# MODEL records as tools write them: (blanks before the serial, digits of the serial); 'MODEL ' itself is the standard layout
+# (serial right-justified in columns 11-14).  The serial is "the number after the tag", wherever it stands.
+MODEL_SHORT = {'MODEL:compact': (0, 1), 'MODEL:wide': (4, 5), 'MODEL:left': (1, 2)}
+TAGS = ['ATOM  ', 'HETATM', 'MODEL ', 'TER   ', 'OTHER'] + sorted(TER_SHORT) + sorted(MODEL_SHORT)
 SHAPES = [('next', None), ('next', 'res'), ('res', None), ('res', 'res')]
 
 
@@ -31,13 +34,16 @@ def make_line(ctx, tag, name):
         return TER_SHORT[tag], {}
     if tag == 'OTHER':
         t = sym_chars('tag', 6)
+    elif tag in MODEL_SHORT:
+        t = None
     else:
         t = [ord(c) for c in tag]
-    if tag == 'MODEL ':
-        digs = sym_chars('md', 4)
+    if tag == 'MODEL ' or tag in MODEL_SHORT:
+        blanks, nd = MODEL_SHORT.get(tag, (4, 4))
+        digs = sym_chars('md', nd)
         for d in digs:
             ctx.assume(And(d >= 48, d <= 57))
-        chars = t + [32] * 4 + digs + [10]
+        chars = [ord(c) for c in 'MODEL '] + [32] * blanks + digs + [10]
         return mk_str(chars), {'model_digits': digs}
     body = sym_chars('c', 80)
     chars = list(t) + body[6:]
@@ -197,9 +203,9 @@ def spec_cases(step):
     same = dict(pre)
     if step.tag == 'OTHER':
         return [(True, same, None)]
-    if step.tag == 'MODEL ':
+    if step.tag == 'MODEL ' or step.tag in MODEL_SHORT:
         d = step.model_digits
-        val = sum((d[i] - 48) * 10 ** (3 - i) for i in range(4))
+        val = sum((d[i] - 48) * 10 ** (len(d) - 1 - i) for i in range(len(d)))
         # 'the first residue of a model' is a chain start whatever its chain and number: nothing is remembered of the last C-terminal residue
         return [(True, dict(pre, model=val, nterm_residue=NEXT, old_residue=None), None)]
     if step.tag.startswith('TER'):
